@@ -24,7 +24,26 @@ func init() {
 				runtime.GOMAXPROCS(1)
 				old := debug.SetGCPercent(-1)
 				defer debug.SetGCPercent(old)
+				if seq, ok := rp.Extra["sequence"].([]interface{}); ok && len(seq) > 1 {
+					var win [][]byte
+					for _, x := range seq {
+						str, _ := x.(string)
+						win = append(win, eng.Exact([]byte(str)))
+					}
+					for _, w := range win {
+						if f.warm != nil {
+							f.warm(w)
+						}
+						f.call(w)
+					}
+					rep := append(append(append([][]byte{}, win...), win...), win...)
+					n := mallocsMin(f, rep, 5)
+					return n > 0, fmt.Sprintf("%s allocates %d objects over three rounds of the %d-input sequence", fam, n, len(win))
+				}
 				w := eng.Exact(rp.InputB64)
+				if f.warm != nil {
+					f.warm(w)
+				}
 				if !f.call(w) {
 					return false, "call does not succeed on this input"
 				}
@@ -50,6 +69,11 @@ var (
 	c19Buf       rjson.Buffer
 	c19Buf2      rjson.Buffer
 	c19Dst       = make([]byte, 0, 1<<16)
+	c19Arena     = make([]byte, 1<<17)
+	c19Buf3      rjson.Buffer
+	c19Buf4      rjson.Buffer
+	c19Buf5      rjson.Buffer
+	c19Buf6      rjson.Buffer
 	c19Decline   = rjson.ArrayValueHandler(rjson.ArrayValueHandlerFunc(func([]byte) (int, error) { return 0, nil }))
 	c19DeclineO  = rjson.ObjectValueHandler(rjson.ObjectValueHandlerFunc(func(_, _ []byte) (int, error) { return 0, nil }))
 	c19Skip      = rjson.ArrayValueHandler(rjson.ArrayValueHandlerFunc(func(d []byte) (int, error) { return rjson.SkipValue(d, &c19Buf2) }))
@@ -95,12 +119,47 @@ func allocFamilies() []allocFamily {
 		// handlers that re-enter the library with the SAME warmed Buffer (the repository's own benchmark idiom)
 		{"HandleArrayValues/handler-reenters-same-buffer", func(w []byte) bool { _, err := rjson.HandleArrayValues(w, c19SkipSame, &c19Buf); return err == nil }, warmBufs, func(w []byte) bool { return firstByte(w) == '[' }},
 		{"HandleObjectValues/handler-reenters-same-buffer", func(w []byte) bool { _, err := rjson.HandleObjectValues(w, c19SkipSameO, &c19Buf); return err == nil }, warmBufs, func(w []byte) bool { return firstByte(w) == '{' }},
+		// Buffers that have only ever been used by this very call ("already used on a document at
+		// least as deeply nested" is met by the call's own warm-up; nothing else grows them)
+		{"HandleArrayValues/skipping-handler/buffers warmed by this call only", func(w []byte) bool {
+			_, err := rjson.HandleArrayValues(w, rjson.ArrayValueHandlerFunc(func(d []byte) (int, error) { return rjson.SkipValue(d, &c19Buf4) }), &c19Buf3)
+			return err == nil
+		}, func(w []byte) {
+			rjson.HandleArrayValues(w, rjson.ArrayValueHandlerFunc(func(d []byte) (int, error) { return rjson.SkipValue(d, &c19Buf4) }), &c19Buf3)
+		}, func(w []byte) bool { return firstByte(w) == '[' }},
+		{"HandleObjectValues/skipping-handler/buffers warmed by this call only", func(w []byte) bool {
+			_, err := rjson.HandleObjectValues(w, rjson.ObjectValueHandlerFunc(func(_, d []byte) (int, error) { return rjson.SkipValue(d, &c19Buf6) }), &c19Buf5)
+			return err == nil
+		}, func(w []byte) {
+			rjson.HandleObjectValues(w, rjson.ObjectValueHandlerFunc(func(_, d []byte) (int, error) { return rjson.SkipValue(d, &c19Buf6) }), &c19Buf5)
+		}, func(w []byte) bool { return firstByte(w) == '{' }},
 		{"ReadStringBytes", func(w []byte) bool { _, _, err := rjson.ReadStringBytes(w, c19Dst[:0]); return err == nil }, nil, func(w []byte) bool { return firstByte(w) == '"' }},
 		{"UnescapeStringContent", func(w []byte) bool { _, _, err := rjson.UnescapeStringContent(w, c19Dst[:0]); return err == nil }, nil, nil},
 		// the property's minimal precondition: spare capacity of exactly the input length
 		{"ReadStringBytes/spare=len(input)", func(w []byte) bool { _, _, err := rjson.ReadStringBytes(w, c19Dst[:0:len(w)]); return err == nil }, nil, func(w []byte) bool { return firstByte(w) == '"' }},
 		{"ReadStringBytes/prefix+spare=len(input)", func(w []byte) bool { _, _, err := rjson.ReadStringBytes(w, c19Dst[:7:7+len(w)]); return err == nil }, nil, func(w []byte) bool { return firstByte(w) == '"' }},
 		{"UnescapeStringContent/spare=len(input)", func(w []byte) bool { _, _, err := rjson.UnescapeStringContent(w, c19Dst[:0:len(w)]); return err == nil }, nil, nil},
+		// in place: the destination is the front of the input's own backing array (output never
+		// overtakes input); the input is restored from w inside the call (copy does not allocate)
+		{"UnescapeStringContent/in-place", func(w []byte) bool {
+			a := c19Arena[:len(w)]
+			copy(a, w)
+			_, _, err := rjson.UnescapeStringContent(a, a[:0])
+			return err == nil
+		}, nil, nil},
+		{"ReadStringBytes/in-place", func(w []byte) bool {
+			a := c19Arena[:len(w)]
+			copy(a, w)
+			_, _, err := rjson.ReadStringBytes(a, a[:0])
+			return err == nil
+		}, nil, func(w []byte) bool { return firstByte(w) == '"' }},
+		// the destination is the free tail of an arena that holds the input in front of it
+		{"UnescapeStringContent/arena-tail", func(w []byte) bool {
+			a := c19Arena[:len(w)]
+			copy(a, w)
+			_, _, err := rjson.UnescapeStringContent(a, c19Arena[len(w):len(w)])
+			return err == nil
+		}, nil, nil},
 		{"ReadFloat64", func(w []byte) bool { _, _, err := rjson.ReadFloat64(w); return err == nil }, nil, isNum},
 		{"DecodeFloat64", func(w []byte) bool { _, err := rjson.DecodeFloat64(w, &c19F); return err == nil }, nil, nil},
 		{"ReadInt64", func(w []byte) bool { _, _, err := rjson.ReadInt64(w); return err == nil }, nil, isNum},
@@ -165,6 +224,58 @@ func findAllocating(f allocFamily, inputs [][]byte, out *[][]byte) {
 	findAllocating(f, inputs[mid:], out)
 }
 
+// findAllocatingSeq handles a batch that allocates although no single input of it does when
+// repeated on its own (the cost depends on the PREVIOUS call: a memo, a cache): it returns a
+// minimal subsequence (delta debugging) that still allocates when it is repeated.
+func findAllocatingSeq(f allocFamily, inputs [][]byte) [][]byte {
+	allocates := func(seq [][]byte) bool {
+		if len(seq) == 0 {
+			return false
+		}
+		// three rounds inside one measurement: the steady state of a cache, not its first fill
+		rep := append(append(append([][]byte{}, seq...), seq...), seq...)
+		return mallocsMin(f, rep, 5) > 0
+	}
+	seq := inputs
+	if !allocates(seq) {
+		return nil
+	}
+	// ddmin: remove chunks while the rest still allocates
+	n := 2
+	for len(seq) >= 2 {
+		chunk := (len(seq) + n - 1) / n
+		reduced := false
+		for i := 0; i < len(seq); i += chunk {
+			j := i + chunk
+			if j > len(seq) {
+				j = len(seq)
+			}
+			rest := append(append([][]byte{}, seq[:i]...), seq[j:]...)
+			if allocates(rest) {
+				seq = rest
+				if n > 2 {
+					n--
+				}
+				reduced = true
+				break
+			}
+		}
+		if !reduced {
+			if n >= len(seq) {
+				break
+			}
+			n *= 2
+			if n > len(seq) {
+				n = len(seq)
+			}
+		}
+	}
+	if len(seq) > 8 {
+		return nil
+	}
+	return seq
+}
+
 func c19(r *eng.Run) {
 	r.Level = "exploration"
 	runtime.GOMAXPROCS(1)
@@ -183,11 +294,12 @@ func c19(r *eng.Run) {
 	}
 	D := r.Pick(2, 3)
 	sp := e1Spec{
-		entry:  "node generation",
-		check:  func(w []byte, a *ref.PDA) (string, bool, string, string) { add(w); return "", false, "", "" },
-		refKey: func(w []byte, a *ref.PDA) string { return a.Key() + ref.StrRefine(w) },
-		noPump: true,
-		digSat: 3,
+		entry:    "node generation",
+		check:    func(w []byte, a *ref.PDA) (string, bool, string, string) { add(w); return "", false, "", "" },
+		refKey:   func(w []byte, a *ref.PDA) string { return a.Key() + ref.StrRefine(w) },
+		noPump:   true,
+		noWindow: true,
+		digSat:   3,
 	}
 	res := runE1(r, sp, D, 1, r.Pick(20000, 120000))
 	bfsNodes := len(nodes)
@@ -260,6 +372,8 @@ func c19(r *eng.Run) {
 	old := debug.SetGCPercent(-1)
 	defer debug.SetGCPercent(old)
 	measured, successful := 0, 0
+	seqReported := map[string]bool{}
+	violatedFamily := map[string]bool{}
 	perFamily := map[string]int{}
 	for _, f := range allocFamilies() {
 		// the successful nodes of this family
@@ -290,11 +404,26 @@ func c19(r *eng.Run) {
 			}
 			var bad [][]byte
 			findAllocating(f, batch, &bad)
+			if len(bad) == 0 && !seqReported[f.name] && mallocsMin(f, batch, 10) > 0 {
+				if win := findAllocatingSeq(f, batch); win != nil {
+					seqReported[f.name] = true
+					violatedFamily[f.name] = true
+					var seq []string
+					for _, w := range win {
+						seq = append(seq, string(w))
+					}
+					rep := append(append(append([][]byte{}, win...), win...), win...)
+					n := mallocsMin(f, rep, 5)
+					r.Violation(eng.Replay{Engine: "alloc", Entry: f.name, Sig: "allocates-in-sequence/" + f.name + "/" + shortSig(win[0]), InputB64: win[0], History: seq, Expected: "0 heap allocations on successful calls, whatever the previous call was", Got: fmt.Sprintf("%d allocations when these %d inputs are processed one after another (three rounds)", n, len(win)),
+						Extra: map[string]interface{}{"family": f.name, "sequence": seq}})
+				}
+			}
 			for _, w := range bad {
 				n := mallocsMin(f, [][]byte{w}, 5)
 				if n == 0 {
 					continue
 				}
+				violatedFamily[f.name] = true
 				r.Violation(eng.Replay{Engine: "alloc", Entry: f.name, Sig: "allocates/" + f.name + "/" + shortSig(w), InputB64: w, Expected: "0 heap allocations on a successful call (warmed buffer / spare destination / non-allocating handler)", Got: fmt.Sprintf("%d allocations per call", n),
 					Extra: map[string]interface{}{"family": f.name}})
 			}
@@ -326,7 +455,14 @@ func c19(r *eng.Run) {
 		return min
 	}
 	var bisectGC func(f allocFamily, in [][]byte, out *[][]byte)
+	gcBudget := 0
 	bisectGC = func(f allocFamily, in [][]byte, out *[][]byte) {
+		// (a family whose cost depends on the previous call makes every sub-batch allocate: the
+		// steady-state pass reports that; here the bisection is cut off after a fixed number of steps)
+		if gcBudget <= 0 {
+			return
+		}
+		gcBudget--
 		if len(*out) >= 3 || afterGC(f, in) == 0 {
 			return
 		}
@@ -339,6 +475,10 @@ func c19(r *eng.Run) {
 	}
 	gcMeasured := 0
 	for _, f := range allocFamilies() {
+		if violatedFamily[f.name] {
+			continue // already reported by the steady-state pass
+		}
+		gcBudget = 120
 		var ok [][]byte
 		for _, w := range small {
 			if f.accept != nil && !f.accept(w) {
